@@ -42,8 +42,12 @@ def intArmW (maxObj : Int) (anyR : Bool) (i : Int) (rest : List Nat) : Res (Obj 
       else .ok (.int i, rest)
     | .ok _ => .ok (.int i, rest)
 
-/-- the arm as the code has it now: object numbers up to `u32::MAX` -/
-def intArm (i : Int) (rest : List Nat) : Res (Obj × List Nat) := intArmW 4294967295 true i rest
+/-- the arm as the code has it now: object numbers up to `u32::MAX`, and the third token must be
+    the bare keyword `R` (`Lexer::last_token_was_ref_keyword`) -/
+def intArm (i : Int) (rest : List Nat) : Res (Obj × List Nat) := intArmW 4294967295 false i rest
+
+/-- the arm before the repair of C09-F3: any `Token::Name("R")` closed a reference, also `/R` -/
+def intArmAnyR (i : Int) (rest : List Nat) : Res (Obj × List Nat) := intArmW 4294967295 true i rest
 
 /-- the arm before the repairs: window `0..=9999999` (C09-F5), any `Name("R")` (C09-F3) -/
 def intArmOld (i : Int) (rest : List Nat) : Res (Obj × List Nat) := intArmW 9999999 true i rest
